@@ -91,7 +91,18 @@ pub fn check_history(n: usize, ops: &[(u8, u8)]) -> Result<bool, String> {
          return Err(format!("count_exact = {cnt}, closure has {} pairs after step {step} of {ops:?}", expect.len()));
       }
       for i in 0..n as u8 {
-         let fwd: Option<BTreeSet<u8>> = catch(|| uf.set_of(&i).map(|it| it.cloned().collect())).map_err(|e| format!("set_of panicked: {e}"))?;
+         // (as for iter_all, every element is listed once: these iterators feed count() / sum() over the relation)
+         let fwd_list: Option<Vec<u8>> = catch(|| uf.set_of(&i).map(|it| it.cloned().collect())).map_err(|e| format!("set_of panicked: {e}"))?;
+         let bwd_list: Option<Vec<u8>> = catch(|| uf.rev_set_of(&i).map(|it| it.cloned().collect())).map_err(|e| format!("rev_set_of panicked: {e}"))?;
+         for (name, list) in [("set_of", &fwd_list), ("rev_set_of", &bwd_list)] {
+            if let Some(l) = list {
+               let distinct: BTreeSet<u8> = l.iter().cloned().collect();
+               if distinct.len() != l.len() {
+                  return Err(format!("{name}({i}) lists an element more than once: {l:?} after step {step} of {ops:?}"));
+               }
+            }
+         }
+         let fwd: Option<BTreeSet<u8>> = fwd_list.map(|l| l.into_iter().collect());
          let want: BTreeSet<u8> = expect.iter().filter(|(a, _)| *a == i).map(|(_, b)| *b).collect();
          if fwd.clone().unwrap_or_default() != want || (fwd.is_none() && model.mentioned[i as usize]) {
             return Err(format!("set_of({i}) = {fwd:?}, expected {want:?} after step {step} of {ops:?}"));
